@@ -22,7 +22,7 @@ pub struct ActorModelState<A: Actor, H = ()> {
 }
 
 /// Represents a set of random choices for one actor.
-#[derive(Clone, Debug, Serialize)]
+#[derive(Clone, Debug, Serialize, Hash, Eq, PartialEq)]
 pub struct RandomChoices<Random> {
     /// The map of random choices for an actor.
     ///
@@ -58,6 +58,16 @@ impl<Random: Rewrite<Id>> Rewrite<Id> for RandomChoices<Random> {
                 .map(|(k, v)| (k.clone(), v.iter().map(|r| r.rewrite(plan)).collect()))
                 .collect::<HashableHashMap<_, _, _>>(),
         }
+    }
+}
+
+impl<A: Actor, H> ActorModelState<A, H> {
+    /// The non-empty sets of pending random choices, with the index of the actor they belong to.
+    fn pending_random_choices(&self) -> impl Iterator<Item = (usize, &RandomChoices<A::Random>)> {
+        self.random_choices
+            .iter()
+            .enumerate()
+            .filter(|(_, choices)| !choices.map.is_empty())
     }
 }
 
@@ -140,6 +150,13 @@ where
         self.actor_states.hash(state);
         self.history.hash(state);
         self.timers_set.hash(state);
+        // Pending choices are identified by actor index; an actor without an entry and an actor
+        // with an empty entry both have nothing pending.
+        for (index, choices) in self.pending_random_choices() {
+            index.hash(state);
+            choices.hash(state);
+        }
+        self.crashed.hash(state);
         self.network.hash(state);
     }
 }
@@ -156,6 +173,10 @@ where
         self.actor_states.eq(&other.actor_states)
             && self.history.eq(&other.history)
             && self.timers_set.eq(&other.timers_set)
+            && self
+                .pending_random_choices()
+                .eq(other.pending_random_choices())
+            && self.crashed.eq(&other.crashed)
             && self.network.eq(&other.network)
     }
 }
